@@ -444,7 +444,10 @@ class Device(nfc.clf.device.Device):
                 if brty == '106A':
                     data.insert(0, 0xF0)
                 self._send_data(brty, data, addr)
-                brty, data, addr = self._recv_data(wait, brty)
+                try:
+                    brty, data, addr = self._recv_dep(time_to_return, brty)
+                except nfc.clf.CommunicationError:
+                    return None
                 try:
                     if brty == '106A':
                         assert data.pop(0) == 0xF0
@@ -464,7 +467,11 @@ class Device(nfc.clf.device.Device):
                         data.insert(0, 0xF0)
                     self._send_data(brty, data, addr)
                     brty = ('106A', '212F', '424F')[target.psl_req[3] >> 3 & 7]
-                    target.brty, data, addr = self._recv_data(wait, brty)
+                    try:
+                        target.brty, data, addr = self._recv_dep(
+                            time_to_return, brty)
+                    except nfc.clf.CommunicationError:
+                        return None
                     try:
                         if brty == '106A':
                             assert data.pop(0) == 0xF0
@@ -493,6 +500,17 @@ class Device(nfc.clf.device.Device):
                     target.dep_req = data[:]
                     return target
                 return None
+
+    def _recv_dep(self, time_to_return, brty):
+        # a damaged frame is a frame never seen, like on a real receiver
+        while True:
+            wait = time_to_return - time.time()
+            if wait <= 0:
+                raise nfc.clf.TimeoutError("no data received")
+            try:
+                return self._recv_data(wait, brty)
+            except nfc.clf.TransmissionError:
+                continue
 
     def send_cmd_recv_rsp(self, target, data, timeout):
         # send data, data should normally not be None for the Initiator
